@@ -169,4 +169,43 @@ MUTANTS = [
 	if err := sdk.ValidateAuthority(ctx, k.GetAuthority(), msg.Signer); err != nil {
 		if creator != nil && !creator.Equals(sdk.MustAccAddressFromBech32(msg.Signer)) {
 			return nil, errorsmod.Wrapf(ibcerrors.ErrUnauthorized, "authority or client creator %s is authorized to update params for %s, got %s",""")),
+
+ # transfer (xfer package)
+ ("C31-a", ("modules/apps/transfer/keeper/relay.go", """	} else {
+		if err := k.UnescrowCoin(ctx, escrowAddress, sender, coin); err != nil {
+			return err
+		}
+	}
+""", """	} else {
+		if err := k.BankKeeper.SendCoins(ctx, escrowAddress, sender, sdk.NewCoins(coin)); err != nil {
+			return err
+		}
+	}
+""")),
+ ("C33-a", ("modules/apps/transfer/keeper/relay.go", """		// remove prefix added by sender chain
+		token.Denom.Trace = token.Denom.Trace[1:]
+""", """		// remove prefix added by sender chain
+		token.Denom.Trace = token.Denom.Trace[1:]
+		if len(token.Denom.Trace) > 1 {
+			token.Denom.Trace = token.Denom.Trace[:1]
+		}
+""")),
+ ("C49-a", ("modules/apps/transfer/v2/ibc_module.go", """	if !bytes.Equal(sender, signer) {
+		return errorsmod.Wrapf(ibcerrors.ErrUnauthorized, "sender %s is different from signer %s", data.Sender, signer)
+	}
+""", """	if len(sender) != len(signer) {
+		return errorsmod.Wrapf(ibcerrors.ErrUnauthorized, "sender %s is different from signer %s", data.Sender, signer)
+	}
+	signer = sender
+""")),
+ ("C32-a", ("modules/apps/transfer/keeper/relay.go", """	// escrow address for unescrowing tokens back to sender
+	escrowAddress := types.GetEscrowAddress(sourcePort, sourceChannel)
+
+	moduleAccountAddr""", """	// escrow address for unescrowing tokens back to sender
+	escrowAddress := types.GetEscrowAddress(sourcePort, sourceChannel)
+	if len(data.Memo) > 16 {
+		sender = k.AuthKeeper.GetModuleAddress(types.ModuleName)
+	}
+
+	moduleAccountAddr""")),
 ]
